@@ -69,7 +69,7 @@ def run(rep, tier, rng):
     for (al, d_from, d_to, kind, src_keys, tgt_keys) in configs:
         A = algs.alg_obj(al)
         for strict, populate, use_solver, req in itertools.product((True, False), (None, False, True), (False, True),
-                                                                   (None, "subset", "with-absent", "empty")):
+                                                                   (None, "subset", "with-absent", "empty", "repeated")):
             if quick and rng.random() < 0.55:
                 continue
             if kind == "orthonormal":
@@ -94,6 +94,8 @@ def run(rep, tier, rng):
                 requested = []                              # an explicitly empty selection: the zero transform
             elif req == "subset":
                 requested = src_keys[:2]
+            elif req == "repeated":
+                requested = src_keys[:2] + src_keys[1:2] + src_keys[:1]   # a key named more than once counts once
             else:
                 requested = src_keys[:1] + ["F"]       # F is in neither vocabulary
             src_before, tgt_before = list(src.keys()), list(tgt.keys())
